@@ -262,6 +262,16 @@ func c06Verify(res *engine.Result, pre string, pmt psi.PMT, w *c06Want, deep boo
 			}
 		}
 		_ = pmt.PIDExists(0x1ABC)
+		// ... and what a caller does with the slices it was handed stays the caller's business: appending to
+		// one stream's descriptor list, to the stream list or to the PID list (writes into spare capacity, if
+		// there is any) changes nothing that the table reports afterwards
+		junk := psi.NewPmtDescriptor(0xEE, []byte{0xBA, 0xD0, 0xBA, 0xD0})
+		for _, es := range pmt.ElementaryStreams() {
+			_ = append(es.Descriptors(), junk, junk)
+		}
+		_ = append(pmt.ElementaryStreams(), psi.NewPmtElementaryStream(0xEE, 0x1EEE, nil))
+		_ = append(pmt.Pids(), 0x1EEE, 0x1EEF)
+		c06VerifyStreams(res, pre+"after-caller-side-appends|", pmt.ElementaryStreams(), w, deep)
 		if want := c06PIDList(sec); !c06SameInts(pmt.Pids(), want) {
 			res.Failf(pre+"Pids-after-queries", "after PIDExists queries Pids()=%v, section has %v", pmt.Pids(), want)
 		}
